@@ -151,14 +151,19 @@ func init() {
 		},
 		Stages: []*fw.Stage{
 			{
-				Name: "boundaries", Exhaustive: "the listed unit boundaries +-1 s in both forms",
+				Name: "boundaries", Exhaustive: "the listed unit boundaries +-1 s, each also with 1 ns / 500 ms / 999 ms / 999999999 ns added, in both forms",
 				N: func(t fw.Tier) uint64 {
 					return uint64(len(boundaries)) * 3 * map[fw.Tier]uint64{fw.Quick: 20, fw.Thorough: 20000}[t]
 				},
 				Run: func(c *fw.Case) {
 					d := boundaries[c.Idx%uint64(len(boundaries))] + time.Duration(int(c.Idx/uint64(len(boundaries))%3)-1)*time.Second
+					// ... and the same boundaries with a sub-second part (the repetitions cycle through them)
+					frac := []time.Duration{0, 0, time.Nanosecond, 500 * time.Millisecond, 999 * time.Millisecond, 999999999 * time.Nanosecond}[c.Idx/uint64(3*len(boundaries))%6]
+					if d >= 0 {
+						d += frac
+					}
 					v := d.String()
-					if c.R.Bool() {
+					if c.R.Bool() && d%time.Second == 0 {
 						v = fmt.Sprintf("%ds", int64(d/time.Second))
 					}
 					c19Check(c, nows(c.R), v, d, true, fmt.Sprintf("boundary%02d", c.Idx%uint64(len(boundaries))))
